@@ -6,7 +6,6 @@ import (
 	"encoding/json"
 	"fmt"
 	"os"
-	"os/exec"
 	"path/filepath"
 	"strings"
 	"syscall"
@@ -112,6 +111,10 @@ func semanticFaults(name string, s *gram.Spec) []gram.Named2 {
 	c = clone()
 	c.Types = nil
 	render("actions-on-untagged-nonterminals", c)
+	// two tokens declared with one number
+	c = clone()
+	c.LateTokens = append(c.LateTokens, gram.TokDecl{Name: "TDUP1", Num: 777}, gram.TokDecl{Name: "TDUP2", Num: 777})
+	render("two-tokens-one-number", c)
 	return out
 }
 
@@ -288,15 +291,9 @@ func inode(p string) uint64 {
 
 // c19CLI repeats one case through the real binary.
 func c19CLI(w *Worker, c *c19Case, expectFail bool, bad func(kind, msg string)) {
-	if nativeBin == "" {
-		bin := filepath.Join(w.Scratch, fmt.Sprintf("yaccgo-native-%d", os.Getpid()))
-		cmd := exec.Command("go", "build", "-o", bin, "./yaccgo")
-		cmd.Dir = repoDir()
-		if out, err := cmd.CombinedOutput(); err != nil {
-			w.Note("INTERNAL: cannot build the native CLI: " + string(out))
-			return
-		}
-		nativeBin = bin
+	if _, err := nativeCLI(w); err != nil {
+		w.Note("INTERNAL: cannot build the native CLI: " + err.Error())
+		return
 	}
 	dir, err := os.MkdirTemp(w.Scratch, "c19cli-")
 	if err != nil {
